@@ -1394,6 +1394,18 @@ func (up4 *UP4) modifyUP4ForwardingConfiguration(pdrs []pdr, allFARs []far, qers
 			pdrLog.Debug("Application meter found for PDR: ", sessMeter)
 		} // else: if only 1 QER provided, set sessMeterIdx to 0, and use only per-app metering
 
+		// a cell of the application meter is not an index into the session meter
+		if sessMeter.meterType != meterTypeSession {
+			sessMeter = meter{meterTypeSession, 0, 0}
+		}
+
+		// a PDR that refers to the session QER only (no application QER)
+		if len(pdr.qerIDList) == 1 {
+			if m, ok := up4.meters[meterID{qerID: pdr.qerIDList[0], fseid: pdr.fseID}]; ok && m.meterType == meterTypeSession {
+				sessMeter = m
+			}
+		}
+
 		sessionsEntry, err := up4.p4RtTranslator.BuildSessionsTableEntry(pdr, sessMeter, tunnelPeerID.id, FAR.Buffers())
 		if err != nil {
 			return ErrOperationFailedWithReason("build P4rt table entry for Sessions table", err.Error())
@@ -1451,6 +1463,11 @@ func (up4 *UP4) modifyUP4ForwardingConfiguration(pdrs []pdr, allFARs []far, qers
 				fseid: pdr.fseID,
 			}]
 			pdrLog.Debug("Application meter found for PDR:", appMeter)
+		}
+
+		// a cell of the session meter is not an index into the application meter
+		if appMeter.meterType != meterTypeApplication {
+			appMeter = meter{meterTypeApplication, 0, 0}
 		}
 
 		var qfi uint8 = DefaultQFI
